@@ -258,40 +258,30 @@ func (c *Classifier) Normalize(in []byte) []byte {
 
 	var buf bytes.Buffer
 
-	switch len(doc.Tokens) {
-	case 0:
-		return nil
-	case 1:
-		buf.WriteString(c.dict.getWord(doc.Tokens[0].ID))
-		return buf.Bytes()
-	}
-
-	prevLine := 1
-	// An EOL token in first position is written by the line-advance check of
-	// the token that follows it; writing it here as well would shift every
-	// later line down by one.
-	if first := c.dict.getWord(doc.Tokens[0].ID); first != eol {
-		buf.WriteString(first)
-	}
-	for _, t := range doc.Tokens[1:] {
-		// Only write out an EOL token that incremented the line
-		if t.Line == prevLine+1 {
-			buf.WriteString(eol)
-		}
-
-		// Only write tokens that aren't EOL
+	// Line breaks are derived from the line numbers of the tokens rather than
+	// from the EOL tokens: a line break swallowed by a hyphenated word leaves no
+	// EOL token behind, and the words that follow must still end up on the line
+	// Match attributes them to.
+	line := 1
+	lineStart := true
+	for _, t := range doc.Tokens {
 		txt := c.dict.getWord(t.ID)
-
-		if txt != eol {
-			// Only put a space between tokens if the previous token was on the same
-			// line. This prevents spaces after an EOL
-			if t.Line == prevLine {
-				buf.WriteString(" ")
-			}
-			buf.WriteString(txt)
+		if txt == eol {
+			continue
 		}
-
-		prevLine = t.Line
+		for line < t.Line {
+			buf.WriteString(eol)
+			line++
+			lineStart = true
+		}
+		if !lineStart {
+			buf.WriteString(" ")
+		}
+		buf.WriteString(txt)
+		lineStart = false
+	}
+	if buf.Len() == 0 {
+		return nil
 	}
 	return buf.Bytes()
 }
